@@ -213,10 +213,16 @@ def check_sm_chart(values):
         exp = ("rejected", ["ValueError"])
     else:
         exp = ("ok", {"fields": [v.strip() for v in values[:6]], "extra": list(values[6:]) if len(values) > 6 else None})
-    thunks = [("from_msd", lambda: SMChart.from_msd(list(values)))]
-    if not any(":" in v for v in values):
-        thunks.append(("from_str", lambda: SMChart.from_str(":".join(values))))
-    for label, th in thunks:
+    thunks = [("from_msd", lambda: SMChart.from_msd(list(values)), exp)]
+    # from_str: "colon-separated components" - every colon separates, whatever stands before it
+    joined = ":".join(values)
+    parts = joined.split(":")
+    if len(parts) < 6:
+        exp_s = ("rejected", ["ValueError"])
+    else:
+        exp_s = ("ok", {"fields": [v.strip() for v in parts[:6]], "extra": list(parts[6:]) if len(parts) > 6 else None})
+    thunks.append(("from_str", lambda: SMChart.from_str(joined), exp_s))
+    for label, th, exp in thunks:
         try:
             ch = th()
             obs = ("ok", {"fields": [dict.get(ch, k) for k in M.SM_FIELDS], "extra": ch.extradata})
@@ -337,7 +343,8 @@ def explore_shard(acc, shard):
     elif kind == "M":
         _, n = shard
         layer = "M SMChart.from_str / from_msd"
-        vals = ["", "a", "\n b ", "d:e"]
+        # 'c\\' puts a backslash in front of the separating colon, 'd:e' a colon inside a component
+        vals = ["", "a", "\n b ", "d:e", "c\\"] if n <= 6 else ["", "a", "c\\", "d:e"]
         for values in itertools.product(vals, repeat=n):
             case = {"kind": "sm_chart", "values": list(values)}
             core.guard_cheap(acc, case)
@@ -449,7 +456,7 @@ def explore(run):
         + str(cmax)
         + f" symbols over {X.SYMBOLS}; each text x strict {{True, False}} x entry points: loads, load(StringIO), load(iterator of lines), both class constructors x string=/file=StringIO/file=iterator, "
         f"and (layer P) real open files and simfile.open for names {NAMES} on MemoryFS (every text) and the native filesystem (every text in thorough, a fixed stride in quick; always for BOM texts); "
-        "K: SSCChart.from_str on 5 heads x <=3 of 11 chart pieces; M: SMChart.from_msd/from_str on all component lists of length <= 8 over 4 values; corpus files and three systematic variants. "
+        "K: SSCChart.from_str on 5 heads x <=3 of 11 chart pieces; M: SMChart.from_msd/from_str on all component lists of length <= 6 over 5 values and of length 7, 8 over 4 (incl. a colon inside a component and a backslash before the separating colon); corpus files and three systematic variants. "
         "Non-trivial = >= 2 parameters with a duplicate, lower-case, key-only or multi-component parameter, a chart, or stray text."
     )
     run.assumptions = [
